@@ -16,4 +16,8 @@ CHECKS['C07'] = {'engine': 'BFS', 'design_ref': 'DESIGN.md 6 C07',
     'technique': 'explicit-state BFS over setter/call/read histories of real estimator objects (full vars() state hashing, depth-bounded) with a fresh-object differential oracle in every distinct state',
     'text': 'All histories up to the depth bound over a 18-24 event menu per class and data type are executed on real objects; every distinct concrete state is probed on a disposable rebuild against a freshly constructed object with the same final attribute values.',
     'note': _EX_NOTE + '; the fresh-object estimate is the oracle (its numerical correctness is decided by the other properties)'}
+CHECKS['C09'] = {'engine': 'EX', 'design_ref': 'DESIGN.md 6 C09',
+    'technique': 'bounded exhaustive enumeration of all sequence pairs over small lattices x lags x norms against textbook double-loop sums',
+    'text': 'Every pair of lattice sequences of equal and unequal lengths up to the bound, every lag and every normalisation is executed on CORRELATION, xcorr and corrmtx and compared with explicit sums.',
+    'note': _EX_NOTE}
 NOT_BUILT = {}
